@@ -186,6 +186,10 @@ class RootVisitor(NodeVisitor):
     visit_ScopedEvalContextModifier = _simple_visit
 
     def visit_AssignBlock(self, node: nodes.AssignBlock, **kwargs: t.Any) -> None:
+        # the filter is compiled in the frame of the block as well
+        if node.filter is not None:
+            self.sym_visitor.visit(node.filter)
+
         for child in node.body:
             self.sym_visitor.visit(child)
 
